@@ -1741,3 +1741,22 @@ def block_entry(repo: Repo, name: str = "trace_calls", module: str = "monkeytype
         if init is not None and repo.method(ci, "__enter__") is not None and repo.method(ci, "__exit__") is not None:
             return init
     raise AnalysisError(f"anchor {module}.{name} not found: neither a function nor a context-manager class")
+
+
+
+def follow_constant(repo: Repo, mod: Any, name: str, depth: int = 0) -> Optional[ast.AST]:
+    """the expression a module-level name is finally bound to: aliases (`A = B`) and imports from other modules of the package
+    (`from monkeytype.x import A`, also `import ... as`) are followed"""
+    if depth > 6:
+        return None
+    node = mod.constants.get(name)
+    if node is not None and not (isinstance(node, ast.Name) and node.id == name):
+        if isinstance(node, ast.Name):
+            return follow_constant(repo, mod, node.id, depth + 1)
+        return node
+    tgt = mod.imports.get(name)
+    if tgt and "." in tgt:
+        m2, _, n2 = tgt.rpartition(".")
+        if m2 in repo.modules:
+            return follow_constant(repo, repo.modules[m2], n2, depth + 1)
+    return None
